@@ -149,7 +149,7 @@ def check_construct(entry, zone, w, fold, roe):
 @st.composite
 def case_strategy(draw):
     z = draw(S.zones())
-    w = draw(st.one_of(S.wall_near_transition(z), S.wall_near_transition(z), S.wall_near_transition(z), st.integers(S.LO_U, S.HI_U)))
+    w = draw(st.one_of(S.wall_near_transition(z), S.wall_near_transition(z), S.wall_near_transition(z), S.uni(S.LO_U, S.HI_U)))
     entry = draw(st.sampled_from(ENTRIES))
     roe = draw(st.booleans()) if entry in ENTRIES[:4] + ["convert"] else False
     return {"zone": z, "w": w, "fold": draw(st.integers(0, 1)), "roe": roe, "entry": entry}
@@ -184,7 +184,7 @@ class Fixed(Sub):
 
     def strategy(self, ctx):
         return st.fixed_dictionaries({"off": st.one_of(S.fixed_offset_seconds(), st.integers(-86399, 86399)),
-                                      "w": st.integers(S.LO_U, S.HI_U), "fold": st.integers(0, 1), "roe": st.booleans(),
+                                      "w": S.uni(S.LO_U, S.HI_U), "fold": st.integers(0, 1), "roe": st.booleans(),
                                       "entry": st.sampled_from(["datetime", "convert", "FixedTimezone.datetime", "set", "replace"])})
 
     def check(self, case, ctx):
